@@ -60,7 +60,7 @@ class Scenario:
     ("Queue", "put_nowait"): ["Full"], ("Queue", "get_nowait"): ["Empty"], ("Queue", "task_done"): ["ValueError"],
     ("deque", "pop"): ["IndexError"], ("deque", "popleft"): ["IndexError"], ("deque", "getitem"): ["IndexError"],
     ("RLock", "release"): ["RuntimeError"], ("Thread", "start"): ["RuntimeError"], ("Thread", "join"): ["RuntimeError"],
-    ("lists", "new"): ["ModelCapacity"], ("lists", "append"): ["ModelCapacity"], ("lists", "iter_next"): ["StopIteration"], ("lists", "getitem"): ["IndexError"],
+    ("lists", "new"): ["ModelCapacity"], ("lists", "append"): ["ModelCapacity"], ("lists", "concat_new"): ["ModelCapacity"], ("lists", "iter_next"): ["StopIteration"], ("lists", "getitem"): ["IndexError"],
     ("PriorityQueue", "put"): ["ModelCapacity"], ("PriorityQueue", "task_done"): ["ValueError"],
     ("dict", "getitem"): ["KeyError"], ("dict", "setitem"): ["ModelCapacity"], ("dict", "next"): ["RuntimeError", "StopIteration"],
   }
